@@ -6,7 +6,7 @@ use time::Date;
 use crate::{
     fx::io::RateLoader,
     portfolio::{
-        bookkeeping::{txs_to_delta_list, DeltaListResult},
+        bookkeeping::{txs_to_delta_list, DeltaListResult, TxDeltaListError},
         calc_cumulative_capital_gains, calc_security_cumulative_capital_gains,
         io::{
             tx_csv::{parse_tx_csv, write_txs_to_csv, TxCsvParseOptions},
@@ -92,7 +92,17 @@ pub async fn run_acb_app_to_delta_models(
     let mut delta_results = HashMap::<Security, DeltaListResult>::new();
 
     for (sec, mut sec_txs) in txs_by_sec {
-        crate::portfolio::splits::replace_global_security_splits(&mut sec_txs)?;
+        if let Err(e) =
+            crate::portfolio::splits::replace_global_security_splits(&mut sec_txs)
+        {
+            // Keep the error local to this security, like any other
+            // bookkeeping error.
+            delta_results.insert(
+                sec,
+                DeltaListResult(Err(TxDeltaListError::new(Vec::new(), e))),
+            );
+            continue;
+        }
 
         let sec_init_status =
             all_init_status.get(&sec).map(|o| std::rc::Rc::new(o.clone()));
